@@ -1185,3 +1185,228 @@ Proof.
 Qed.
 
 End Inv.
+
+(* ------------------------------------------------------------------ *)
+(* Part 6: followers, deliveries, the window invariant, one round, N rounds *)
+
+Lemma mapM_Forall2 {A B} (g : A -> Res B) : forall xs ys,
+  mapM g xs = Ok ys -> Forall2 (fun x y => g x = Ok y) xs ys.
+Proof.
+  induction xs as [|x t IH]; intros ys H; cbn [mapM] in H.
+  - okinv H. constructor.
+  - ib H y Hy. ib H ys' Hys. okinv H. constructor; [exact Hy|apply IH, Hys].
+Qed.
+
+Lemma Forall2_imp {A B} (P Q : A -> B -> Prop) xs ys :
+  (forall a b, P a b -> Q a b) -> Forall2 P xs ys -> Forall2 Q xs ys.
+Proof. intros H. induction 1; constructor; auto. Qed.
+
+Section WInv.
+
+Variables (l t hb : N).
+Hypothesis Ht0 : t <> 0.
+Hypothesis Hl0 : l <> INVALID_ID.
+
+(* a majority follower: follower of l in term t with check_quorum; heartbeat_timeout of
+   the leader below its election timeout and its randomized timeout; election timer at
+   most hb, and at most the leader's heartbeat counter [he] unless a heartbeat is on
+   its way ([hq]) *)
+Definition FInv (he : N) (hq : Prop) (F : raft) : Prop :=
+  r_state F = Follower /\ r_term F = t /\ r_leader_id F = l /\ r_check_quorum F = true /\
+  hb < r_election_timeout F /\ hb < r_randomized_election_timeout F /\
+  Forall (QF l t) (r_msgs F) /\
+  r_election_elapsed F <= hb /\ (hq \/ r_election_elapsed F <= he).
+
+Lemma FInv_step he hq F m F' cc :
+  FInv he hq F -> okF l t m -> step F m = Ok (F', cc) ->
+  FInv he hq F' /\ r_id F' = r_id F /\ r_vote F' = r_vote F /\
+  r_election_elapsed F' <= r_election_elapsed F /\
+  (from_leader m = true -> m_term m = t -> r_election_elapsed F' = 0) /\
+  incl (r_msgs F) (r_msgs F').
+Proof.
+  intros (I1 & I2 & I3 & I4 & I5 & I6 & I7 & I8 & I9) Hok H.
+  apply (follower_step_FF l) in H; [|exact I1|exact I3|exact Hl0|congruence|rewrite I2; exact Hok].
+  destruct H as (K & R & E & Z & (Q & N)).
+  apply keeps_fields in K. destruct K as (K1 & K2 & K3 & K4 & K5).
+  apply cfg_fields in K5. destruct K5 as (C1 & C2 & C3 & C4 & C5).
+  assert (Ee : r_election_elapsed F' <= r_election_elapsed F) by (destruct E; lia).
+  split.
+  - unfold FInv. rewrite K1, K3, K4, C3, C4, R. repeat (split; [assumption|]).
+    split; [rewrite I2 in Q; apply Q, I7|]. split; [lia|]. destruct I9; [left; assumption|right; lia].
+  - repeat split; try assumption. intros A B. apply Z; [exact A|congruence].
+Qed.
+
+Lemma FInv_steps : forall ms he hq F F',
+  FInv he hq F -> Forall (okF l t) ms -> steps F ms = Ok F' ->
+  FInv he hq F' /\ r_id F' = r_id F /\ r_vote F' = r_vote F /\
+  r_election_elapsed F' <= r_election_elapsed F /\
+  ((exists m, In m ms /\ from_leader m = true /\ m_term m = t) -> r_election_elapsed F' = 0) /\
+  incl (r_msgs F) (r_msgs F').
+Proof.
+  induction ms as [|m rest IH]; intros he hq F F' HI Hok H; cbn [steps] in H.
+  - okinv H. split; [exact HI|]. repeat split; try lia; [|apply incl_refl]. intros (m & [] & _).
+  - inversion Hok as [|? ? Hm Hrest]; subst. ib H y Hy. destruct y as [F1 c1]. cbn [fst] in H.
+    destruct (FInv_step _ _ _ _ _ _ HI Hm Hy) as (J1 & A1 & B1 & C1 & D1 & N1).
+    destruct (IH _ _ _ _ J1 Hrest H) as (J2 & A2 & B2 & C2 & D2 & N2).
+    split; [exact J2|]. split; [congruence|]. split; [congruence|]. split; [lia|].
+    split; [|eapply incl_tran; eassumption].
+    intros (x & [<-|Hx] & Hf & Hterm); [|apply D2; exists x; auto].
+    specialize (D1 Hf Hterm). lia.
+Qed.
+
+(* a heartbeat of the leader among the delivered messages leaves a reply in the queue *)
+Lemma steps_heartbeat_reply : forall ms he hq F F',
+  FInv he hq F -> Forall (okF l t) ms -> steps F ms = Ok F' ->
+  (exists m, In m ms /\ m_type m = MsgHeartbeat /\ m_term m = t /\ m_from m = l) ->
+  exists x, In x (r_msgs F') /\ m_to x = l /\ m_from x = r_id F /\ m_term x = t /\
+            (m_type x = MsgHeartbeatResponse \/ m_type x = MsgAppendResponse).
+Proof.
+  induction ms as [|m rest IH]; intros he hq F F' HI Hok H (m0 & Hin & Hty & Hterm & Hfrom);
+    [destruct Hin|].
+  cbn [steps] in H. inversion Hok as [|? ? Hm Hrest]; subst. ib H y Hy. destruct y as [F1 c1].
+  cbn [fst] in H.
+  destruct (FInv_step _ _ _ _ _ _ HI Hm Hy) as (J1 & A1 & B1 & C1 & D1 & N1).
+  destruct Hin as [<-|Hin].
+  - pose proof HI as (I1 & I2 & _).
+    apply follower_heartbeat_reply in Hy; [|exact I1|exact Hty|congruence].
+    destruct Hy as (x & Ex & X1 & X2 & X3 & X4).
+    destruct (FInv_steps _ _ _ _ _ J1 Hrest H) as (_ & _ & _ & _ & _ & N2).
+    exists x. split; [apply N2; rewrite Ex; apply in_or_app; right; left; reflexivity|].
+    repeat split; first [congruence|exact X4].
+  - destruct (IH _ _ _ _ J1 Hrest H) as (x & X0 & X1 & X2 & X3 & X4);
+      [exists m0; auto|].
+    exists x. repeat split; try assumption. congruence.
+Qed.
+
+End WInv.
+
+Section Round.
+
+Variables (ids : list N) (l t hb et : N) (c : conf).
+Hypothesis Ht0 : t <> 0.
+Hypothesis Hl0 : l <> INVALID_ID.
+Hypothesis Hlids : ~ In l ids.
+Hypothesis Hhbet : hb < et.
+Hypothesis Hquorum : Quorum.has_quorum (incoming c) (outgoing c) (l :: ids) = true.
+
+Local Notation LInv_step' := (LInv_step ids l t hb et c Ht0 Hl0 Hhbet Hquorum).
+Local Notation LInv_steps' := (LInv_steps ids l t hb et c Ht0 Hl0 Hhbet Hquorum).
+Local Notation LInv_LF' := (LInv_LF ids l t hb et c Ht0 Hl0 Hhbet Hquorum).
+Local Notation leader_tick_LInv' := (leader_tick_LInv ids l t hb et c Ht0 Hl0 Hlids Hhbet Hquorum).
+Local Notation FInv_step' := (FInv_step l t hb Ht0 Hl0).
+Local Notation FInv_steps' := (FInv_steps l t hb Ht0 Hl0).
+
+(* what the nodes outside {l} + ids may send: anything that is not a local or a transfer
+   message, does not claim a majority member as sender, and is either a pre-vote request
+   (any term), or of a stale non-zero term, or of a term <= t and not a message only the
+   leader of its term sends *)
+Definition netmsg (ty : N) : Prop :=
+  ty <> MsgHup /\ ty <> MsgBeat /\ ty <> MsgCheckQuorum /\ ty <> MsgUnreachable /\
+  ty <> MsgSnapStatus /\ ty <> MsgTransferLeader /\ ty <> MsgTimeoutNow.
+
+Definition adv_ok (m : msg) : Prop :=
+  ~ In (m_from m) (l :: ids) /\ netmsg (m_type m) /\
+  (m_type m = MsgRequestPreVote \/
+   (m_term m <> 0 /\ m_term m < t) \/
+   (m_term m <= t /\ from_leader m = false /\ m_type m <> MsgReadIndexResp)).
+
+Lemma adv_okL m : adv_ok m -> okL ids t m.
+Proof.
+  intros (Hf & (N1 & N2 & N3 & N4 & N5 & N6 & N7) & Hc).
+  split; [exact N3|]. split; [exact N6|]. split.
+  - destruct Hc as [E|[[_ E]|[E _]]]; [right; exact E|left; lia|left; exact E].
+  - intros _ C. apply Hf. right. exact C.
+Qed.
+
+Lemma adv_okF m : adv_ok m -> okF l t m.
+Proof.
+  intros (Hf & (N1 & N2 & N3 & N4 & N5 & N6 & N7) & Hc).
+  split; [exact N1|]. split; [exact N7|]. split; [exact N6|]. split.
+  - destruct Hc as [E|[[_ E]|[E _]]]; [right; exact E|left; lia|left; exact E].
+  - split.
+    + intros Hfl. destruct Hc as [E|[[E1 E2]|[_ [E _]]]].
+      * unfold from_leader in Hfl. rewrite E in Hfl. discriminate.
+      * split; [exact E1|intros X; lia].
+      * congruence.
+    + intros _ C. apply Hf. left. symmetry. exact C.
+Qed.
+
+(* the window invariant *)
+Definition WInv (vs : list N) (L : raft) (Fs : list raft) : Prop :=
+  LInv ids l t hb et c false L /\ map r_id Fs = ids /\ map r_vote Fs = vs /\
+  Forall (fun F => FInv l t hb (r_heartbeat_elapsed L) (hbq L (r_id F)) F) Fs.
+
+(* delivery of one adversarial message to the node(s) with id [tgt] *)
+Definition deliver (st : raft * list raft) (tm : N * msg) : Res (raft * list raft) :=
+  if fst tm =? r_id (fst st) then x <- step (fst st) (snd tm) ;; Ok (fst x, snd st)
+  else Fs' <- mapM (fun F => if r_id F =? fst tm then x <- step F (snd tm) ;; Ok (fst x)
+                             else Ok F) (snd st) ;;
+       Ok (fst st, Fs').
+
+Fixpoint deliver_all (st : raft * list raft) (adv : list (N * msg)) : Res (raft * list raft) :=
+  match adv with
+  | [] => Ok st
+  | tm :: rest => st' <- deliver st tm ;; deliver_all st' rest
+  end.
+
+(* one window round: the adversarial deliveries, then the lock-step round *)
+Definition window_round (adv : list (N * msg)) (L : raft) (Fs : list raft)
+  : Res (raft * list raft) :=
+  st <- deliver_all (L, Fs) adv ;; star_round (fst st) (snd st).
+
+Fixpoint window_rounds (advs : list (list (N * msg))) (L : raft) (Fs : list raft)
+  : Res (raft * list raft) :=
+  match advs with
+  | [] => Ok (L, Fs)
+  | adv :: rest => x <- window_round adv L Fs ;; window_rounds rest (fst x) (snd x)
+  end.
+
+Lemma Forall2_map_eq {A B C} (f : A -> C) (g : B -> C) xs ys :
+  Forall2 (fun x y => g y = f x) xs ys -> map g ys = map f xs.
+Proof. induction 1; cbn; congruence. Qed.
+
+Lemma FInv_weaken he (hq hq' : Prop) F : (hq -> hq') -> FInv l t hb he hq F -> FInv l t hb he hq' F.
+Proof.
+  intros Himp (I1 & I2 & I3 & I4 & I5 & I6 & I7 & I8 & I9).
+  repeat (split; [assumption|]). destruct I9; [left; auto|right; assumption].
+Qed.
+
+Lemma deliver_WInv vs L Fs tm L' Fs' :
+  WInv vs L Fs -> adv_ok (snd tm) -> deliver (L, Fs) tm = Ok (L', Fs') -> WInv vs L' Fs'.
+Proof.
+  intros (HL & Hid & Hv & HF) Hadv H. unfold deliver in H. cbn [fst snd] in H.
+  destruct (fst tm =? r_id L).
+  - ib H y Hy. injection H as HL' HFs'. subst L' Fs'. destruct y as [L1 c1]. cbn [fst].
+    destruct (LInv_step' false _ _ _ _ HL (adv_okL _ Hadv) Hy) as (J & F1 & _).
+    pose proof (LInv_LF' false _ _ HL F1) as [_ Hhe].
+    split; [exact J|]. split; [exact Hid|]. split; [exact Hv|].
+    rewrite Hhe. eapply Forall_impl; [|exact HF]. intros F. apply FInv_weaken.
+    apply (LF_hbq ids). exact F1.
+  - ib H Fs1 H1. injection H as HL' HFs'. subst L' Fs'. apply mapM_Forall2 in H1.
+    assert (G : Forall2 (fun F F1 => r_id F1 = r_id F /\ r_vote F1 = r_vote F /\
+                FInv l t hb (r_heartbeat_elapsed L) (hbq L (r_id F1)) F1) Fs Fs1).
+    { clear Hid Hv. induction H1 as [|F F1 Fs0 Fs1 Hx Hrest IH]; [constructor|].
+      inversion HF as [|? ? HF0 HFr]; subst. constructor; [|apply IH, HFr].
+      destruct (r_id F =? fst tm).
+      - ib Hx y Hy. okinv Hx. destruct y as [Fa ca]. cbn [fst].
+        destruct (FInv_step' _ _ _ _ _ _ HF0 (adv_okF _ Hadv) Hy) as (J & A & B & _).
+        split; [exact A|]. split; [exact B|]. rewrite A. exact J.
+      - okinv Hx. auto. }
+    split; [exact HL|]. split.
+    { rewrite <- Hid. apply Forall2_map_eq. eapply Forall2_imp; [|exact G]. intros a b (A & _). exact A. }
+    split.
+    { rewrite <- Hv. apply Forall2_map_eq. eapply Forall2_imp; [|exact G]. intros a b (_ & A & _). exact A. }
+    clear -G. induction G as [|a b ? ? (_ & _ & A)]; constructor; assumption.
+Qed.
+
+Lemma deliver_all_WInv vs : forall adv L Fs L' Fs',
+  WInv vs L Fs -> Forall (fun tm => adv_ok (snd tm)) adv ->
+  deliver_all (L, Fs) adv = Ok (L', Fs') -> WInv vs L' Fs'.
+Proof.
+  induction adv as [|tm rest IH]; intros L Fs L' Fs' HI Hadv H; cbn [deliver_all] in H.
+  - okinv H. exact HI.
+  - inversion Hadv as [|? ? Ha Hr]; subst. ib H st Hst. destruct st as [L1 Fs1].
+    eapply IH; [|exact Hr|exact H]. eapply deliver_WInv; eassumption.
+Qed.
+
+End Round.
